@@ -472,4 +472,404 @@ Section Refine.
       constructor; auto. intros p' n'. destruct (upd2_cases (funcs m) (s_cur s) n None p' n') as [(-> & -> & ->)|[Hne ->]]; [|auto].
       symmetry. exact Er.
   Qed.
+
+  Lemma RVp_intro (T : tbl) mh mn (own : tbl) sh sn us :
+    (forall a, mh a = sh a) -> mn = sn ->
+    (forall p n, mem n VN = true -> T p n = res own (vexp_of sh) us p n) ->
+    (forall p n, mem n VN = false -> res own (vexp_of sh) us p n = None -> T p n = None) ->
+    (forall p n a, own p n = Some a -> a < sn /\ mem n NMl = true) ->
+    inj own ->
+    (forall p n a, mem n VN = true -> own p n = Some a ->
+       exists vv, sh a = Some vv /\ vv_val vv <> None /\ vv_pkg vv = Some p) ->
+    (forall p n a, mem n VN = false -> own p n = Some a -> sh a = Some junk) ->
+    vis (fun n => mem n VN) own (vexp_of sh) us ->
+    RVp T mh mn own sh sn us.
+  Proof.
+    intros h1 h2 h3 h4 h5 h6 h7 h8 h9. constructor; auto.
+    intros p n Hr. destruct (mem n VN) eqn:Hn; [rewrite (h3 _ _ Hn); exact Hr|auto].
+  Qed.
+
+  Lemma step_makunbound m s n :
+    Inv m s -> sorted_op VN FN (OMakunbound n) = true -> guard_step P NMl s (OMakunbound n) = true ->
+    Inv (step m (OMakunbound n)) (sstep s (OMakunbound n)).
+  Proof.
+    intros HI Hs G. pose proof HI as (HC & HV & HF). pose proof HV as [h1 h2 h3 h4 h5 h6 h7 h8 h9].
+    cbn in Hs. cbn [guard_step] in G. cbn [step sstep]. unfold remove_var.
+    rewrite (c_cur _ _ HC), (h3 _ _ Hs). change (res (own_v s) (vexp_of (s_vheap s)) (s_uses s)) with (resolve_v s).
+    destruct (resolve_v s (s_cur s) n) as [a|] eqn:Er.
+    - apply andb_true_iff in G. destruct G as [G1 _]. apply opt_addr_eqb_eq in G1.
+      set (own' := upd2 (own_v s) (s_cur s) n None).
+      assert (Hown0 : own' (s_cur s) n = None) by apply upd2_same.
+      assert (Hown1 : forall p' n', ~ (p' = s_cur s /\ n' = n) -> own' p' n' = own_v s p' n') by (intros; apply upd2_other; assumption).
+      pose proof (noself_uses m s HC) as Hns.
+      split; [|split]; [destruct HC; constructor; cbn; auto| |exact HF].
+      unfold RV. cbn. fold own'. apply RVp_intro; auto.
+      + intros p' n' Hn'. destruct (N.eqb_spec n' n) as [->|Hn].
+        * destruct (N.eqb_spec p' (s_cur s)) as [->|Hp].
+          -- symmetry. eapply res_rm_self with (a0 := a) (good := fun n => mem n VN); eauto.
+          -- destruct (mem p' (users m (s_cur s))) eqn:Eu.
+             ++ rewrite (h3 _ _ Hs). destruct (res (own_v s) (vexp_of (s_vheap s)) (s_uses s) p' n) as [x|] eqn:Ex.
+                ** destruct (resv_cell m s p' n x HV Hs Ex) as (q' & xv & Hox & Hhx & _ & Hpx).
+                   rewrite h1, Hhx, Hpx. destruct (N.eqb_spec q' (s_cur s)) as [->|Hq'].
+                   --- assert (x = a) by congruence. subst x. symmetry.
+                       eapply res_rm_a0 with (a0 := a) (good := fun n => mem n VN); eauto.
+                   --- symmetry. eapply res_rm_other with (a0 := a) (good := fun n => mem n VN); eauto.
+                       intros ->. apply Hq'. eapply proj1, h6; eassumption.
+                ** symmetry. eapply res_rm_none; eauto.
+             ++ rewrite (h3 _ _ Hs). symmetry. eapply res_rm_nonuser; eauto.
+                intros Hi. apply (mem_users m s HC) in Hi. congruence.
+        * rewrite (h3 _ _ Hn'). symmetry. eapply res_rm_name; eauto.
+      + intros p' n' Hn' Hr. assert (Hn : n' <> n) by (intros ->; congruence).
+        destruct (N.eqb_spec n' n) as [|_]; [contradiction|]. apply h4.
+        rewrite <- Hr. symmetry. eapply res_rm_name; eauto.
+      + intros p' n' x Hx. destruct (upd2_cases (own_v s) (s_cur s) n None p' n') as [(-> & -> & E)|[Hne E]];
+          unfold own' in Hx; rewrite E in Hx; [discriminate|eauto].
+      + eapply inj_rm; eauto.
+      + intros p' n' x Hn' Hx. destruct (upd2_cases (own_v s) (s_cur s) n None p' n') as [(-> & -> & E)|[Hne E]];
+          unfold own' in Hx; rewrite E in Hx; [discriminate|eauto].
+      + intros p' n' x Hn' Hx. destruct (upd2_cases (own_v s) (s_cur s) n None p' n') as [(-> & -> & E)|[Hne E]];
+          unfold own' in Hx; rewrite E in Hx; [discriminate|eauto].
+      + eapply vis_rm with (a0 := a); eauto.
+    - assert (Hnone : own_v s (s_cur s) n = None) by (apply res_none_inv in Er; tauto).
+      split; [|split]; [destruct HC; constructor; cbn; auto| |exact HF].
+      unfold RV. cbn. eapply RVp_own_ext; [apply upd2_none_noop, Hnone|exact HV].
+  Qed.
+
+  (* ---- export: function part then variable part ---- *)
+  Definition export_f (m : state) (p : pkgid) (n : name) : state :=
+    match funcs m p n with
+    | Some a => match fheap m a with
+                | Some fi =>
+                    let s' := set_fheap m (upd (fheap m) a (Some {| fi_pkg := fi_pkg fi; fi_val := fi_val fi; fi_export := true |})) in
+                    set_funcs s' (push_users (funcs s') (users m p) n a)
+                | None => m end
+    | None => m end.
+  Definition export_v (s1 : state) (us : list pkgid) (obj : pkgid) (n : name) : state :=
+    match vars s1 obj n with
+    | Some a => match vheap s1 a with
+                | Some vv =>
+                    let s' := set_vheap s1 (upd (vheap s1) a (Some {| vv_pkg := vv_pkg vv; vv_val := vv_val vv; vv_export := true |})) in
+                    set_vars s' (push_users (vars s') us n a)
+                | None => s1 end
+    | None =>
+        let a := vnext s1 in
+        {| vars := upd2 (vars s1) obj n (Some a); funcs := funcs s1;
+           vheap := upd (vheap s1) a (Some {| vv_pkg := None; vv_val := None; vv_export := true |});
+           fheap := fheap s1; vnext := a + 1; fnext := fnext s1; uses := uses s1; users := users s1; cur := cur s1 |}
+    end.
+  Lemma export_split m p n : export m p n = export_v (export_f m p n) (users m p) p n.
+  Proof. reflexivity. Qed.
+  Definition sexport_f (s : sstate) (p : pkgid) (n : name) : sstate :=
+    match own_f s p n with Some a => set_fexp s a true | None => s end.
+  Definition sexport_v (s1 : sstate) (p : pkgid) (n : name) : sstate :=
+    match own_v s1 p n with
+    | Some a => set_vexp s1 a true
+    | None => new_var s1 p n {| vv_pkg := None; vv_val := None; vv_export := true |}
+    end.
+  Lemma sexport_split s p n : sstep s (OExport n p) = sexport_v (sexport_f s p n) p n.
+  Proof. reflexivity. Qed.
+
+  Lemma users_clause (own : tbl) exp us (l : list pkgid) p n a :
+    (forall u, In p (us u) -> In u l) ->
+    forallb (fun u => opt_addr_eqb (res own exp us u n) None || opt_addr_eqb (res own exp us u n) (Some a)) l = true ->
+    forall u, In p (us u) -> res own exp us u n = None \/ res own exp us u n = Some a.
+  Proof.
+    intros Hl G u Hu. rewrite forallb_forall in G. specialize (G u (Hl u Hu)). apply orb_true_iff in G.
+    destruct G as [G|G]; apply opt_addr_eqb_eq in G; auto.
+  Qed.
+
+  Lemma export_f_inv m s p n :
+    Inv m s -> (own_f s p n = None -> resolve_f s p n = None) ->
+    match own_f s p n with
+    | Some a => forallb (fun u => opt_addr_eqb (resolve_f s u n) None || opt_addr_eqb (resolve_f s u n) (Some a)) (s_users P s p)
+    | None => true end = true ->
+    Inv (export_f m p n) (sexport_f s p n).
+  Proof.
+    intros HI Hnone G. pose proof HI as (HC & HV & HF). pose proof HF as [h1 h2 h3 h4 h5 h6].
+    unfold export_f, sexport_f. rewrite h3. change (res (own_f s) (fexp_of (s_fheap s)) (s_uses s)) with (resolve_f s).
+    destruct (own_f s p n) as [a0|] eqn:Eo; [|rewrite (Hnone eq_refl); exact HI].
+    rewrite (resolve_f_own _ _ _ _ Eo). destruct (h4 _ _ _ Eo) as (Hlt & Hfn & fi & Hh & Hpk).
+    rewrite h1, Hh. unfold set_fexp. rewrite Hh.
+    set (fi' := {| fi_pkg := fi_pkg fi; fi_val := fi_val fi; fi_export := true |}).
+    set (sh' := upd (s_fheap s) a0 (Some fi')).
+    assert (Hexp : forall x, x <> a0 -> fexp_of sh' x = fexp_of (s_fheap s) x).
+    { intros x Hx. unfold fexp_of, sh'. rewrite upd_other by exact Hx. reflexivity. }
+    assert (He : fexp_of sh' a0 = true) by (unfold fexp_of, sh'; rewrite upd_same; reflexivity).
+    pose proof (users_clause (own_f s) (fexp_of (s_fheap s)) (s_uses s) _ p n a0 (fun u => in_s_users m s HC u p) G) as Gu.
+    split; [|split]; [destruct HC; constructor; cbn; auto|exact HV|].
+    unfold RF. cbn. fold fi'. fold sh'. constructor; auto.
+    - intros x. unfold sh', upd. rewrite h1. reflexivity.
+    - intros p' n'. unfold push_users. destruct (mem p' (users m p)) eqn:Eu; cbn [andb].
+      + apply (mem_users m s HC) in Eu. destruct (N.eqb_spec n' n) as [->|Hn].
+        * rewrite (res_flag_on _ _ _ _ _ _ _ Eo h5 Hexp p' He Eu (Gu _ Eu)). rewrite h3.
+          destruct (Gu _ Eu) as [E|E]; rewrite E; reflexivity.
+        * rewrite h3. symmetry. eapply res_flag_name; eauto.
+      + rewrite h3. symmetry. eapply res_flag_nonuser; eauto.
+        intros Hi. apply (mem_users m s HC) in Hi. congruence.
+    - intros p' n' x Hx. destruct (h4 _ _ _ Hx) as (H1 & H2 & fi0 & H3 & H4). split; [auto|split; [auto|]].
+      unfold sh', upd. destruct (N.eqb_spec x a0) as [->|]; [|eauto]. eexists; split; [reflexivity|]. cbn. congruence.
+    - eapply vis_flag_on; eauto.
+  Qed.
+
+  Lemma export_v_vn m s us p n a0 :
+    Inv m s -> mem n VN = true -> own_v s p n = Some a0 ->
+    forallb (fun u => opt_addr_eqb (resolve_v s u n) None || opt_addr_eqb (resolve_v s u n) (Some a0)) (s_users P s p) = true ->
+    (forall u, mem u us = true <-> In p (s_uses s u)) ->
+    Inv (export_v m us p n) (sexport_v s p n).
+  Proof.
+    intros HI Hn Eo G Hus. pose proof HI as (HC & HV & HF). pose proof HV as [h1 h2 h3 h4 h5 h6 h7 h8 h9].
+    unfold export_v, sexport_v. rewrite (h3 _ _ Hn). change (res (own_v s) (vexp_of (s_vheap s)) (s_uses s)) with (resolve_v s).
+    rewrite Eo, (resolve_v_own _ _ _ _ Eo). destruct (h7 _ _ _ Hn Eo) as (vv & Hh & Hval & Hpk).
+    rewrite h1, Hh. unfold set_vexp. rewrite Hh.
+    set (vv' := {| vv_pkg := vv_pkg vv; vv_val := vv_val vv; vv_export := true |}).
+    set (sh' := upd (s_vheap s) a0 (Some vv')).
+    assert (Hexp : forall x, x <> a0 -> vexp_of sh' x = vexp_of (s_vheap s) x).
+    { intros x Hx. unfold vexp_of, sh'. rewrite upd_other by exact Hx. reflexivity. }
+    assert (He : vexp_of sh' a0 = true) by (unfold vexp_of, sh'; rewrite upd_same; reflexivity).
+    pose proof (users_clause (own_v s) (vexp_of (s_vheap s)) (s_uses s) _ p n a0 (fun u => in_s_users m s HC u p) G) as Gu.
+    split; [|split]; [destruct HC; constructor; cbn; auto| |exact HF].
+    unfold RV. cbn. fold vv'. fold sh'. apply RVp_intro; auto.
+    - intros x. unfold sh', upd. rewrite h1. reflexivity.
+    - intros p' n' Hn'. unfold push_users. destruct (mem p' us) eqn:Eu; cbn [andb].
+      + apply Hus in Eu. destruct (N.eqb_spec n' n) as [->|Hne].
+        * rewrite (res_flag_on _ _ _ _ _ _ _ Eo h6 Hexp p' He Eu (Gu _ Eu)). rewrite (h3 _ _ Hn).
+          destruct (Gu _ Eu) as [E|E]; rewrite E; reflexivity.
+        * rewrite (h3 _ _ Hn'). symmetry. eapply res_flag_name; eauto.
+      + rewrite (h3 _ _ Hn'). symmetry. eapply res_flag_nonuser; eauto.
+        intros Hi. apply Hus in Hi. congruence.
+    - intros p' n' Hn' Hr. assert (Hne : n' <> n) by (intros ->; congruence).
+      unfold push_users. destruct (N.eqb_spec n' n) as [|_]; [contradiction|]. rewrite andb_false_r.
+      apply h4. rewrite <- Hr. symmetry. eapply res_flag_name; eauto.
+    - intros p' n' x Hn' Hx. destruct (h7 _ _ _ Hn' Hx) as (vv0 & H1 & H2 & H3).
+      unfold sh', upd. destruct (N.eqb_spec x a0) as [->|]; [|eauto].
+      eexists; split; [reflexivity|]. cbn. split; congruence.
+    - intros p' n' x Hn' Hx. unfold sh'. rewrite upd_other; [eauto|]. intros ->.
+      destruct (h6 _ _ _ _ _ Eo Hx) as [_ ->]. congruence.
+    - eapply vis_flag_on; eauto.
+  Qed.
+
+  Lemma export_v_new m s us p n :
+    Inv m s -> mem n VN = false -> mem n FN = true -> resolve_v s p n = None ->
+    Inv (export_v m us p n) (sexport_v s p n).
+  Proof.
+    intros HI Hn Hfn Er. pose proof HI as (HC & HV & HF). pose proof HV as [h1 h2 h3 h4 h5 h6 h7 h8 h9].
+    assert (Hnone : own_v s p n = None) by (apply res_none_inv in Er; tauto).
+    unfold export_v, sexport_v. rewrite (h4 _ _ Er), Hnone. fold junk.
+    assert (Hfresh : forall p' n', own_v s p' n' <> Some (s_vnext s)).
+    { intros p' n' H. apply h5 in H. destruct H as [H _]. exact (N.lt_irrefl _ H). }
+    set (own' := upd2 (own_v s) p n (Some (s_vnext s))).
+    set (sh' := upd (s_vheap s) (s_vnext s) (Some junk)).
+    assert (Hown0 : own' p n = Some (s_vnext s)) by apply upd2_same.
+    assert (Hown1 : forall p' n', ~ (p' = p /\ n' = n) -> own' p' n' = own_v s p' n') by (intros; apply upd2_other; assumption).
+    assert (Hexp : forall x, x <> s_vnext s -> vexp_of sh' x = vexp_of (s_vheap s) x).
+    { intros x Hx. unfold vexp_of, sh'. rewrite upd_other by exact Hx. reflexivity. }
+    split; [|split]; [destruct HC; constructor; cbn; auto| |exact HF].
+    unfold RV, new_var. cbn. fold own'. fold sh'. apply RVp_intro.
+    - intros x. unfold sh', upd. rewrite h1, h2. reflexivity.
+    - rewrite h2. reflexivity.
+    - intros p' n' Hn'. assert (Hne : n' <> n) by (intros ->; congruence).
+      rewrite upd2_other by tauto. rewrite (h3 _ _ Hn'). symmetry. eapply res_new_name; eauto.
+    - intros p' n' Hn' Hr. destruct (upd2_cases (vars m) p n (Some (vnext m)) p' n') as [(-> & -> & _)|[Hne ->]].
+      + rewrite (res_own _ _ _ _ _ _ Hown0) in Hr. discriminate.
+      + apply h4. destruct (res (own_v s) (vexp_of (s_vheap s)) (s_uses s) p' n') eqn:E; [|reflexivity].
+        exfalso. eapply (res_new_mono (own_v s) own' (vexp_of (s_vheap s)) (vexp_of sh')); eauto. congruence.
+    - intros p' n' x Hx. destruct (upd2_cases (own_v s) p n (Some (s_vnext s)) p' n') as [(-> & -> & E)|[Hne E]];
+        unfold own' in Hx; rewrite E in Hx.
+      + injection Hx as <-. split; [lia|apply nm_fn, Hfn].
+      + apply h5 in Hx. destruct Hx. split; [lia|assumption].
+    - eapply inj_new; eauto.
+    - intros p' n' x Hn' Hx. assert (Hne : ~ (p' = p /\ n' = n)) by (intros [_ ->]; congruence).
+      unfold own' in Hx. rewrite upd2_other in Hx by exact Hne.
+      unfold sh'. rewrite upd_other; [eauto|]. intros ->. exact (Hfresh _ _ Hx).
+    - intros p' n' x Hn' Hx. destruct (upd2_cases (own_v s) p n (Some (s_vnext s)) p' n') as [(-> & -> & E)|[Hne E]];
+        unfold own' in Hx; rewrite E in Hx.
+      + injection Hx as <-. unfold sh'. apply upd_same.
+      + unfold sh'. rewrite upd_other; [eauto|]. intros ->. exact (Hfresh _ _ Hx).
+    - eapply vis_new_name; eauto.
+  Qed.
+
+  Lemma sexport_f_resv s p n p' n' : resolve_v (sexport_f s p n) p' n' = resolve_v s p' n'.
+  Proof. unfold sexport_f, set_fexp. destruct (own_f s p n) as [a|]; [destruct (s_fheap s a)|]; reflexivity. Qed.
+
+  Lemma step_export m s n p :
+    Inv m s -> sorted_op VN FN (OExport n p) = true -> guard_step P NMl s (OExport n p) = true ->
+    Inv (step m (OExport n p)) (sstep s (OExport n p)).
+  Proof.
+    intros HI Hs G. pose proof HI as (HC & HV & HF). cbn [step]. rewrite export_split, sexport_split.
+    cbn [guard_step] in G. apply andb_true_iff in G. destruct G as [G Gf]. apply andb_true_iff in G. destruct G as [G Gv].
+    apply andb_true_iff in G. destruct G as [G0 G1].
+    assert (Hfn : own_f s p n = None -> resolve_f s p n = None).
+    { intros Eo. destruct (mem n VN) eqn:Hn; [apply (resf_vn m s HF), Hn|]. exfalso. rewrite Eo in G1.
+      destruct (own_v s p n) as [a|] eqn:Ev; [|discriminate].
+      rewrite (v_junk _ _ _ _ _ _ _ HV _ _ _ Hn Ev) in Gv. cbn in Gv. discriminate. }
+    pose proof (export_f_inv m s p n HI Hfn Gf) as HI1.
+    destruct (mem n VN) eqn:Hn.
+    - pose proof (ownf_vn m s HF p n Hn) as Eo. rewrite Eo in G1.
+      unfold sexport_f in *. rewrite Eo in *.
+      destruct (own_v s p n) as [a0|] eqn:Ev; [|discriminate].
+      apply andb_true_iff in Gv. destruct Gv as [_ Gv].
+      eapply export_v_vn; eauto. intros u. apply (mem_users m s HC).
+    - cbn in Hs. rewrite Hn in Hs. cbn in Hs.
+      destruct (own_v s p n) as [a|] eqn:Ev.
+      + rewrite (v_junk _ _ _ _ _ _ _ HV _ _ _ Hn Ev) in Gv. cbn in Gv. discriminate.
+      + apply opt_addr_eqb_eq in Gv. apply export_v_new; auto. rewrite sexport_f_resv. exact Gv.
+  Qed.
+
+  (* ---- unexport: function part then variable part ---- *)
+  Definition unexport_f (s : state) (obj : pkgid) (n : name) : state :=
+    match funcs s obj n with
+    | Some a => match fheap s a with
+                | Some fi =>
+                    let s' := set_fheap s (upd (fheap s) a (Some {| fi_pkg := fi_pkg fi; fi_val := fi_val fi; fi_export := false |})) in
+                    set_funcs s' (fun p n' =>
+                      if mem p (users s obj) && N.eqb n' n then
+                        match funcs s' p n with
+                        | Some x => match fheap s' x with
+                                    | Some xf => if N.eqb (fi_pkg xf) obj then None else Some x
+                                    | None => Some x end
+                        | None => None end
+                      else funcs s' p n')
+                | None => s end
+    | None => s end.
+  Definition unexport_v (s1 : state) (us : list pkgid) (obj : pkgid) (n : name) : state :=
+    match vars s1 obj n with
+    | Some a => match vheap s1 a with
+                | Some vv =>
+                    let s' := set_vheap s1 (upd (vheap s1) a (Some {| vv_pkg := vv_pkg vv; vv_val := vv_val vv; vv_export := false |})) in
+                    set_vars s' (fun p n' =>
+                      if mem p us && N.eqb n' n then
+                        match vars s' p n with
+                        | Some x => match vheap s' x with
+                                    | Some xv => match vv_pkg xv with
+                                                 | Some q => if N.eqb q obj then None else Some x
+                                                 | None => Some x end
+                                    | None => Some x end
+                        | None => None end
+                      else vars s' p n')
+                | None => s1 end
+    | None => s1
+    end.
+  Lemma unexport_split m p n : unexport m p n = unexport_v (unexport_f m p n) (users m p) p n.
+  Proof. reflexivity. Qed.
+  Definition sunexport_f (s : sstate) (p : pkgid) (n : name) : sstate :=
+    match own_f s p n with Some a => set_fexp s a false | None => s end.
+  Definition sunexport_v (s1 : sstate) (p : pkgid) (n : name) : sstate :=
+    match own_v s1 p n with Some a => set_vexp s1 a false | None => s1 end.
+  Lemma sunexport_split s p n : sstep s (OUnexport n p) = sunexport_v (sunexport_f s p n) p n.
+  Proof. reflexivity. Qed.
+
+  Lemma resf_cell m s p n a :
+    RF m s -> resolve_f s p n = Some a ->
+    exists q fi, own_f s q n = Some a /\ s_fheap s a = Some fi /\ fi_pkg fi = q.
+  Proof.
+    intros HF Hr. assert (exists q, own_f s q n = Some a) as [q Hq].
+    { apply res_some_inv in Hr. destruct Hr as [Hr|(_ & q & _ & Hf)]; [eauto|]. apply eff_some in Hf. destruct Hf; eauto. }
+    destruct (f_own _ _ _ _ _ _ _ HF _ _ _ Hq) as (_ & _ & fi & H1 & H2). eauto 8.
+  Qed.
+
+  Lemma unexport_f_inv m s p n :
+    Inv m s -> (own_f s p n = None -> resolve_f s p n = None) ->
+    Inv (unexport_f m p n) (sunexport_f s p n).
+  Proof.
+    intros HI Hnone. pose proof HI as (HC & HV & HF). pose proof HF as [h1 h2 h3 h4 h5 h6].
+    unfold unexport_f, sunexport_f. rewrite h3. change (res (own_f s) (fexp_of (s_fheap s)) (s_uses s)) with (resolve_f s).
+    destruct (own_f s p n) as [a0|] eqn:Eo; [|rewrite (Hnone eq_refl); exact HI].
+    rewrite (resolve_f_own _ _ _ _ Eo). destruct (h4 _ _ _ Eo) as (Hlt & Hfn & fi & Hh & Hpk).
+    rewrite h1, Hh. unfold set_fexp. rewrite Hh.
+    set (fi' := {| fi_pkg := fi_pkg fi; fi_val := fi_val fi; fi_export := false |}).
+    set (sh' := upd (s_fheap s) a0 (Some fi')).
+    assert (Hexp : forall x, x <> a0 -> fexp_of sh' x = fexp_of (s_fheap s) x).
+    { intros x Hx. unfold fexp_of, sh'. rewrite upd_other by exact Hx. reflexivity. }
+    assert (He : fexp_of sh' a0 = false) by (unfold fexp_of, sh'; rewrite upd_same; reflexivity).
+    assert (Hgood : (fun _ : name => true) n = true) by reflexivity.
+    split; [|split]; [destruct HC; constructor; cbn; auto|exact HV|].
+    unfold RF. cbn. fold fi'. fold sh'. constructor; auto.
+    - intros x. unfold sh', upd. rewrite h1. reflexivity.
+    - intros p' n'. destruct (mem p' (users m p)) eqn:Eu; cbn [andb].
+      + apply (mem_users m s HC) in Eu. assert (Hp : p' <> p) by (apply (c_wf _ _ HC _ _ Eu)).
+        destruct (N.eqb_spec n' n) as [->|Hn].
+        * rewrite h3. destruct (res (own_f s) (fexp_of (s_fheap s)) (s_uses s) p' n) as [x|] eqn:Ex.
+          -- destruct (resf_cell m s p' n x HF Ex) as (q' & fx & Hox & Hhx & Hpx).
+             destruct (N.eq_dec x a0) as [->|Hxa].
+             ++ rewrite upd_same. cbn. rewrite Hpk, N.eqb_refl. symmetry.
+                eapply res_flag_off_a0 with (good := fun _ => true) (p0 := p); eauto.
+             ++ rewrite upd_other by exact Hxa. rewrite h1, Hhx, Hpx.
+                destruct (N.eqb_spec q' p) as [->|Hq']; [congruence|]. symmetry.
+                eapply res_flag_off_other with (good := fun _ => true) (p0 := p) (a0 := a0); eauto.
+          -- symmetry. eapply res_flag_off_none; eauto.
+        * rewrite h3. symmetry. eapply res_flag_name; eauto.
+      + rewrite h3. symmetry. eapply res_flag_nonuser; eauto.
+        intros Hi. apply (mem_users m s HC) in Hi. congruence.
+    - intros p' n' x Hx. destruct (h4 _ _ _ Hx) as (H1 & H2 & fi0 & H3 & H4). split; [auto|split; [auto|]].
+      unfold sh', upd. destruct (N.eqb_spec x a0) as [->|]; [|eauto]. eexists; split; [reflexivity|]. cbn. congruence.
+    - eapply vis_flag_off; eauto.
+  Qed.
+
+  Lemma unexport_v_inv m s us p n :
+    Inv m s -> (own_v s p n = None -> resolve_v s p n = None) -> (own_v s p n <> None -> mem n VN = true) ->
+    (forall u, mem u us = true <-> In p (s_uses s u)) ->
+    Inv (unexport_v m us p n) (sunexport_v s p n).
+  Proof.
+    intros HI Hnone Hvn Hus. pose proof HI as (HC & HV & HF). pose proof HV as [h1 h2 h3 h4 h5 h6 h7 h8 h9].
+    unfold unexport_v, sunexport_v.
+    destruct (own_v s p n) as [a0|] eqn:Eo; [|rewrite (h4 _ _ (Hnone eq_refl)); exact HI].
+    assert (Hn : mem n VN = true) by (apply Hvn; discriminate).
+    rewrite (h3 _ _ Hn). rewrite (res_own _ _ _ _ _ _ Eo). destruct (h7 _ _ _ Hn Eo) as (vv & Hh & Hval & Hpk).
+    rewrite h1, Hh. unfold set_vexp. rewrite Hh.
+    set (vv' := {| vv_pkg := vv_pkg vv; vv_val := vv_val vv; vv_export := false |}).
+    set (sh' := upd (s_vheap s) a0 (Some vv')).
+    assert (Hexp : forall x, x <> a0 -> vexp_of sh' x = vexp_of (s_vheap s) x).
+    { intros x Hx. unfold vexp_of, sh'. rewrite upd_other by exact Hx. reflexivity. }
+    assert (He : vexp_of sh' a0 = false) by (unfold vexp_of, sh'; rewrite upd_same; reflexivity).
+    split; [|split]; [destruct HC; constructor; cbn; auto| |exact HF].
+    unfold RV. cbn. fold vv'. fold sh'. apply RVp_intro; auto.
+    - intros x. unfold sh', upd. rewrite h1. reflexivity.
+    - intros p' n' Hn'. destruct (mem p' us) eqn:Eu; cbn [andb].
+      + apply Hus in Eu. assert (Hp : p' <> p) by (apply (c_wf _ _ HC _ _ Eu)).
+        destruct (N.eqb_spec n' n) as [->|Hne].
+        * rewrite (h3 _ _ Hn). destruct (res (own_v s) (vexp_of (s_vheap s)) (s_uses s) p' n) as [x|] eqn:Ex.
+          -- destruct (resv_cell m s p' n x HV Hn Ex) as (q' & xv & Hox & Hhx & _ & Hpx).
+             destruct (N.eq_dec x a0) as [->|Hxa].
+             ++ rewrite upd_same. cbn. rewrite Hpk, N.eqb_refl. symmetry.
+                eapply res_flag_off_a0 with (good := fun n => mem n VN) (p0 := p); eauto.
+             ++ rewrite upd_other by exact Hxa. rewrite h1, Hhx, Hpx.
+                destruct (N.eqb_spec q' p) as [->|Hq']; [congruence|]. symmetry.
+                eapply res_flag_off_other with (good := fun n => mem n VN) (p0 := p) (a0 := a0); eauto.
+          -- symmetry. eapply res_flag_off_none; eauto.
+        * rewrite (h3 _ _ Hn'). symmetry. eapply res_flag_name; eauto.
+      + rewrite (h3 _ _ Hn'). symmetry. eapply res_flag_nonuser; eauto.
+        intros Hi. apply Hus in Hi. congruence.
+    - intros p' n' Hn' Hr. assert (Hne : n' <> n) by (intros ->; congruence).
+      destruct (N.eqb_spec n' n) as [|_]; [contradiction|]. rewrite andb_false_r.
+      apply h4. rewrite <- Hr. symmetry. eapply res_flag_name; eauto.
+    - intros p' n' x Hn' Hx. destruct (h7 _ _ _ Hn' Hx) as (vv0 & H1 & H2 & H3).
+      unfold sh', upd. destruct (N.eqb_spec x a0) as [->|]; [|eauto].
+      eexists; split; [reflexivity|]. cbn. split; congruence.
+    - intros p' n' x Hn' Hx. unfold sh'. rewrite upd_other; [eauto|]. intros ->.
+      destruct (h6 _ _ _ _ _ Eo Hx) as [_ ->]. congruence.
+    - eapply vis_flag_off with (good := fun n => mem n VN); eauto.
+  Qed.
+
+  Lemma sunexport_f_resv s p n p' n' : resolve_v (sunexport_f s p n) p' n' = resolve_v s p' n'.
+  Proof. unfold sunexport_f, set_fexp. destruct (own_f s p n) as [a|]; [destruct (s_fheap s a)|]; reflexivity. Qed.
+  Lemma sunexport_f_ownv s p n p' n' : own_v (sunexport_f s p n) p' n' = own_v s p' n'.
+  Proof. unfold sunexport_f, set_fexp. destruct (own_f s p n) as [a|]; [destruct (s_fheap s a)|]; reflexivity. Qed.
+  Lemma sunexport_f_uses s p n u : s_uses (sunexport_f s p n) u = s_uses s u.
+  Proof. unfold sunexport_f, set_fexp. destruct (own_f s p n) as [a|]; [destruct (s_fheap s a)|]; reflexivity. Qed.
+
+  Lemma step_unexport m s n p :
+    Inv m s -> sorted_op VN FN (OUnexport n p) = true -> guard_step P NMl s (OUnexport n p) = true ->
+    Inv (step m (OUnexport n p)) (sstep s (OUnexport n p)).
+  Proof.
+    intros HI Hs G. pose proof HI as (HC & HV & HF). cbn [step]. rewrite unexport_split, sunexport_split.
+    cbn [guard_step] in G. apply andb_true_iff in G. destruct G as [G Gf]. apply andb_true_iff in G. destruct G as [G0 Gv].
+    assert (Hfn : own_f s p n = None -> resolve_f s p n = None).
+    { intros Eo. rewrite Eo in Gf. apply opt_addr_eqb_eq in Gf. exact Gf. }
+    pose proof (unexport_f_inv m s p n HI Hfn) as HI1.
+    apply unexport_v_inv; auto.
+    - rewrite sunexport_f_ownv, sunexport_f_resv. intros Eo. rewrite Eo in Gv. apply opt_addr_eqb_eq in Gv. exact Gv.
+    - rewrite sunexport_f_ownv. intros Eo. destruct (own_v s p n) as [a|] eqn:Ev; [|congruence].
+      destruct (mem n VN) eqn:Hn; [reflexivity|]. rewrite (v_junk _ _ _ _ _ _ _ HV _ _ _ Hn Ev) in Gv. cbn in Gv. discriminate.
+    - intros u. rewrite sunexport_f_uses. apply (mem_users m s HC).
+  Qed.
 End Refine.
